@@ -709,10 +709,30 @@ func ruleLOCALTS(c *Ctx) {
 			}
 		case "OpSetLocal":
 			// the else-branch of `if … !sym.LocalAssigned { emit(DEFL) } else { emit(SETL) }`
+			// (or a later arm of a tagless switch one of whose earlier arms is
+			// that test: the same alternatives written as a switch)
+			notAssigned := func(cond ast.Expr) bool {
+				return cond != nil && strings.Contains(strings.ReplaceAll(w.Src(cond), " ", ""), "!"+sym+".LocalAssigned")
+			}
 			for i := len(stack) - 1; i > 0 && !good; i-- {
 				if is, ok := stack[i-1].(*ast.IfStmt); ok && is.Else != nil && stack[i] == ast.Node(is.Else) {
-					if strings.Contains(strings.ReplaceAll(w.Src(is.Cond), " ", ""), "!"+sym+".LocalAssigned") && definesIn(is.Body) {
+					if notAssigned(is.Cond) && definesIn(is.Body) {
 						good = true
+					}
+				}
+				if cc, ok := stack[i-1].(*ast.CaseClause); ok && i >= 3 {
+					if sw, ok := stack[i-3].(*ast.SwitchStmt); ok && sw.Tag == nil {
+						for _, cl := range sw.Body.List {
+							prev := cl.(*ast.CaseClause)
+							if prev == cc {
+								break
+							}
+							for _, e := range prev.List {
+								if notAssigned(e) && definesIn(&ast.BlockStmt{List: prev.Body}) {
+									good = true
+								}
+							}
+						}
 					}
 				}
 			}
